@@ -16,6 +16,10 @@ Inductive case :=
     (* events applied one by one to OrderBook::default(); observation after each *)
 | CSide (s : side) (init ups result : list (Z * Z))
     (* OrderBookSide::{bids,asks}(init) then .upsert(ups) ; result = levels() *)
+| CManager (n : N) (mevs : list (option N * event)) (finals : list (N * option Z * list (Z * Z) * list (Z * Z)))
+    (* OrderBookL2Manager::run over an OrderBookMapMulti of n default books keyed 0..n-1, fed a
+       stream of items (Some key, event) and reconnecting notices (None); finals = (sequence,
+       time, bids, asks) of every book afterwards, in key order *)
 | CBookPanic (evs : list event) (depth : N)
 | CSidePanic (s : side) (init ups : list (Z * Z)).
     (* the implementation panicked while applying the events / the depth-limited snapshot
@@ -54,6 +58,21 @@ Definition wf_case (c : case) : bool :=
   | CBook evs _ _ => forallb wf_event evs
   | CSide _ init _ _ | CSidePanic _ init _ => nodup_prices init
   | CBookPanic evs _ => forallb wf_event evs
+  | CManager _ mevs _ => forallb (fun me => wf_event (snd me)) mevs
+  end.
+
+Definition mgr_events (mevs : list (option N * event)) : list (option nat * event) :=
+  map (fun me => (option_map N.to_nat (fst me), snd me)) mevs.
+
+Definition book_matches (b : book) (f : N * option Z * list (Z * Z) * list (Z * Z)) : bool :=
+  let '(sq, t, bs, as_) := f in
+  N.eqb (bseq b) sq && option_eqb Z.eqb (btime b) t && levels_eqb (bids b) bs && levels_eqb (asks b) as_.
+
+Fixpoint all2 {A B} (p : A -> B -> bool) (l1 : list A) (l2 : list B) : bool :=
+  match l1, l2 with
+  | [], [] => true
+  | x :: t1, y :: t2 => p x y && all2 p t1 t2
+  | _, _ => false
   end.
 
 Definition corr_b (c : case) : bool :=
@@ -61,6 +80,8 @@ Definition corr_b (c : case) : bool :=
   | CBook evs d os => corr_run (N.to_nat d) empty_book evs os
   | CSide s init ups res => levels_eqb (upsert s (sort_levels s init) ups) res
   | CBookPanic _ _ | CSidePanic _ _ _ => false
+  | CManager n mevs finals =>
+      all2 book_matches (fold_left mgr_step (mgr_events mevs) (repeat empty_book (N.to_nat n))) finals
   end.
 
 (* ---- oracle --------------------------------------------------------------------------- *)
@@ -111,6 +132,20 @@ Fixpoint prop_run (d : nat) (mentioned : list Z) (sb : sbook) (evs : list event)
   | _, _ => false
   end.
 
+Definition final_ok (evs : list (option nat * event)) (mentioned : list Z) (i : nat)
+           (f : N * option Z * list (Z * Z) * list (Z * Z)) : bool :=
+  let '(sq, t, bs, as_) := f in
+  let sb := fold_left spec_update (route i evs) (abs_book empty_book) in
+  N.eqb (sseq sb) sq && option_eqb Z.eqb (stime sb) t &&
+  side_is_map Bid mentioned (sbids sb) bs && side_is_map Ask mentioned (sasks sb) as_.
+
+Fixpoint mgr_ok (evs : list (option nat * event)) (mentioned : list Z) (i : nat)
+         (finals : list (N * option Z * list (Z * Z) * list (Z * Z))) : bool :=
+  match finals with
+  | [] => true
+  | f :: t => final_ok evs mentioned i f && mgr_ok evs mentioned (S i) t
+  end.
+
 Definition prop_b (c : case) : bool :=
   match c with
   | CBook evs d os =>
@@ -118,6 +153,10 @@ Definition prop_b (c : case) : bool :=
   | CSide s init ups res =>
       side_is_map s (map fst init ++ map fst ups) (spec_upsert (lookup init) ups) res
   | CBookPanic _ _ | CSidePanic _ _ _ => false   (* a book that panicked holds no levels at all *)
+  | CManager n mevs finals =>
+      (* every book must represent the map obtained from ITS OWN events only *)
+      Nat.eqb (length finals) (N.to_nat n) &&
+      mgr_ok (mgr_events mevs) (flat_map (fun me => ev_prices (snd me)) mevs) 0 finals
   end.
 
 (** cases outside the property's input requirement (a snapshot listing a price twice) are
